@@ -54,8 +54,8 @@ TextCache == [p \in {q \in {<<a, LenOf(a, e, d)>> : a \in Sel, e \in {1, 2, 3}, 
 StartsMC(st) == UNION {{p[2]} \X TextCache[<<p[1], LenOf(p[1], p[2], st)>>] :
                         p \in {q \in {<<a, e>> : a \in Sel, e \in {1, 2, 3}} : q[2] \in EnvsOf(q[1]) /\ LenOf(q[1], q[2], st) >= 0}}
 
-AppNameMC == <<97, 112>>          \* "ap"
-AppVersionMC == <<49, 46, 50>>    \* "1.2"
+AppNameMC(e) == <<97, 112>>          \* "ap"
+AppVersionMC(e) == <<49, 46, 50>>    \* "1.2"
 StoreBound == Len(store) <= 2
 ObsEmit(op, args, ret, post) ==
     PrintT(ToJson([pre |-> store0, op |-> op, args |-> args, ret |-> ret, post |-> post]))
